@@ -164,6 +164,16 @@ def run_case(case, ctx):
                 load_from = "same-object"
             desc = dict(object=can[:300], klass=klass, compress=compress, protocol=protocol, target=target, ext=ext, load_from=load_from)
             path = os.path.join(d, f"f{combo}{ext}")
+            if klass.startswith(("plain", "aliased")) and protocol in (0, 1):
+                # the domain is 'every picklable object': what the standard pickle cannot round-trip under this protocol is outside
+                # (an instance of a dict subclass that contains itself: protocols 0 and 1 pass its content as a constructor argument)
+                try:
+                    import pickle
+                    if gen_obj.iso(obj, pickle.loads(pickle.dumps(obj, protocol))):
+                        raise ValueError("differs")
+                except Exception:  # noqa
+                    ctx.count("combinations_outside_the_domain_not_picklable_under_the_protocol")
+                    continue
             ctx.evaluated()
             _B["cpu"].arm(120)
             try:
